@@ -141,22 +141,26 @@ Reports(o) == CASE o.cls \in {"PD", "Att"} -> FALSE
                 [] OTHER -> TRUE
 
 \* all factors of the object are 1
+AllTab(tab, x) == \A s \in 1..Len(tab) : \A v \in 1..Len(tab[s]) : \A a \in 1..Len(tab[s][v]) : \A t \in 1..Len(tab[s][v][a]) :
+                     \A k \in 1..Len(tab[s][v][a][t]) : tab[s][v][a][t][k] = x
 RECURSIVE AllOne(_)
 AllOne(o) ==
   CASE o.cls \in {"None", "Trivial"} -> TRUE
+    [] o.cls = "PD" -> AllTab(o.tab, 0)
+    [] o.cls = "Cal" -> AllTab(o.tab, o.calib + o.br)
     [] o.cls = "Comp" -> /\ (~o.hasEff \/ \A r \in 1..Len(o.eff) : \A d \in 1..Len(o.eff[r]) : o.eff[r][d] = 0)
                          /\ (~o.hasGeo \/ o.geo = 0)
                          /\ (~o.hasBlk \/ \A a \in 1..Len(o.blk) : \A t \in 1..Len(o.blk[a]) : \A c \in 1..Len(o.blk[a][t]) :
                                                 \A u \in 1..Len(o.blk[a][t][c]) : o.blk[a][t][c][u] = 0)
     [] o.cls = "Chain" -> AllOne(o.first) /\ AllOne(o.second)
     [] OTHER -> FALSE
-\* what is_trivial() must answer: "a normalisation that reports itself trivial changes nothing"; documented
-\* answers: Trivial -> true; PETFromComponents -> "checks if all components are 1"; FromProjData -> "always false";
-\* every other class inherits the base-class default, false.
+\* what is_trivial() may answer: "a normalisation that reports itself trivial changes nothing", i.e. an answer
+\* `true' requires that every factor is 1.  Documented answers beyond that: TrivialBinNormalisation -> true;
+\* PETFromComponents -> "checks if all components are 1" (so `false' is wrong there when they are).
 TrivialAnswerOk(o, val) ==
   CASE o.cls = "Trivial" -> val
     [] o.cls = "Comp" -> val = AllOne(o)
-    [] OTHER -> ~val
+    [] OTHER -> val => AllOne(o)
 
 (* ------------------------------ set-up FSM ------------------------------ *)
 \* su: [st |-> "none"] (never set up, or set-up flag cleared), [st |-> "failed"] (set_up reported failure) or
